@@ -209,6 +209,26 @@ func runC06(r *Run) int {
 			checkGrid3Obj(w, g, o, func() Case { return structCase(&v) })
 		}
 	})
+	// v3 environmental objects without any environmental metric: all 518,400
+	r.Parallel(2*nBase3, 8, func(w *W, idx int) {
+		e := m3.NewEnvironmental()
+		o := lib.Obj{Kind: lib.K3E, E3: e}
+		for ti := 0; ti < 100; ti++ {
+			v := newV3(idx/nBase3, idx%nBase3)
+			temporal3(&v, ti)
+			for m := spec.CR; m <= spec.MA; m++ {
+				v.M[m] = 0
+			}
+			lib.Fill3(e, &v)
+			checkGrid3Obj(w, g, o, func() Case { return structCase(&v) })
+			if (idx+ti)%16 == 0 {
+				s := render3(&v, spec.LEnv, nil)
+				if d, err, pan := lib.Decode(lib.K3E, s, false); err == nil && pan == nil && !d.IsNil() {
+					checkGrid3Obj(w, g, d, func() Case { return decodeCase(lib.K3E, s, false) })
+				}
+			}
+		}
+	})
 	r.Phase("v3 environmental product")
 	// v3 reports: score fields of decoded environmental vectors
 	nRep := r.Pick(20000, 300000)
@@ -261,7 +281,6 @@ func runC06(r *Run) int {
 		base2(&v, key/64)
 		v.HasE = true
 		v.M[spec.V2CR], v.M[spec.V2IR], v.M[spec.V2AR] = int8(key%64/16), int8(key%16/4), int8(key%4)
-		neg := spec.Tables2().AdjNeg[v.M[0]][v.M[1]][v.M[2]][v.M[3]][v.M[4]][v.M[5]][v.M[spec.V2CR]][v.M[spec.V2IR]][v.M[spec.V2AR]]
 		for ct := 0; ct < 30; ct++ {
 			v.M[spec.V2CDP], v.M[spec.V2TD] = int8(ct/5), int8(ct%5)
 			for j := 0; j < perKey; j++ {
@@ -278,6 +297,8 @@ func runC06(r *Run) int {
 				if !x.ok {
 					continue
 				}
+				// exemption exactly as stated: the specification's own environmental equation is negative
+				neg := spec.Expect2(&v).EnvNeg
 				c := func() Case { return decodeCase(lib.K2E, s, false) }
 				e := checkGrid(w, g, lib.K2E, c, x.env, x.eSev, neg)
 				t := checkGrid(w, g, lib.K2T, c, x.temp, x.tSev, false)
@@ -287,7 +308,7 @@ func runC06(r *Run) int {
 			}
 		}
 		if key%7919 == 0 {
-			w.Sample(map[string]interface{}{"vector": v.String(), "exempt_negative_equation": neg})
+			w.Sample(map[string]interface{}{"vector": v.String(), "exempt_negative_equation": spec.Expect2(&v).EnvNeg})
 		}
 	})
 	r.Phase("v2 environmental")
@@ -297,7 +318,7 @@ func runC06(r *Run) int {
 	if r.Counter("valid_vector_not_decoded") > 0 || r.Counter("score_panicked") > 0 {
 		r.Inconclusive("%d valid vectors were not decoded / %d queries panicked", r.Counter("valid_vector_not_decoded"), r.Counter("score_panicked"))
 	}
-	return r.Finish("rider on the C01-C05 enumerations: all 5,184 v3 base vectors, all 518,400 v3 temporal vectors, the full v3 effective x temporal environmental product (base/temporal/environmental level of each object), report score fields of decoded environmental vectors, all 73,629 v2 base/temporal vectors at every admitting decoder, and every v2 (exploitability, adjusted impact) key x 30 (CDP,TD) x temporal states; each (score, severity) pair checked for grid, range, printing and band; distinct non-trivial = distinct (decoder type, score value) pairs observed",
+	return r.Finish("rider on the C01-C05 enumerations: all 5,184 v3 base vectors, all 518,400 v3 temporal vectors, the full v3 effective x temporal environmental product and all 518,400 environmental objects without environmental metrics (base/temporal/environmental level of each object), report score fields of decoded environmental vectors, all 73,629 v2 base/temporal vectors at every admitting decoder, and every v2 (exploitability, adjusted impact) key x 30 (CDP,TD) x temporal states; each (score, severity) pair checked for grid, range, printing and band; distinct non-trivial = distinct (decoder type, score value) pairs observed",
 		true, int64(r.SetSize("score_band")), 1000000, 300, TrustedBase)
 }
 
